@@ -18,7 +18,7 @@ SPEC_TARGETS = {"syn::Expr", "syn::Path", "syn::Ident", "IdentString", "Callable
                 "syn::Lit", "syn::LitInt", "syn::LitFloat", "syn::LitStr", "syn::LitByte", "syn::LitByteStr", "syn::LitChar", "syn::LitBool",
                 "helper:preserve", "helper:parse"} | {t for t in TARGETS if t.startswith("syn::Type") or t in ("syn::Visibility", "syn::WhereClause")}
 
-PATHS = ["a", "foo::<u8>", "foo::<Vec<u8>>", "a::b", "::a::b", "a::b::<T>", "Vec<u8>", "<T as Tr>::x", "self", "Self::A", "crate::m::f", "r#type", "r#type::x",
+PATHS = ["<T>::x", "a", "foo::<u8>", "foo::<Vec<u8>>", "a::b", "::a::b", "a::b::<T>", "Vec<u8>", "<T as Tr>::x", "self", "Self::A", "crate::m::f", "r#type", "r#type::x",
          "std::collections::HashMap<String, Vec<u8>>", "a::<'x>::b"]
 IDENTS = ["a", "foo_bar", "r#type", "r#match", "Self", "self", "_x", "x1"]
 EXPRS = ["a + b", "f(x, y)", "|a| a + 1", "|a, b| a", "{ 1 }", "[1, 2, 3]", "[]", "[a, b::c]", "1..2", "..", "..=5", "a..", "(a, b)",
@@ -42,6 +42,8 @@ def gen(rng, tier):
     pool_q = PATHS + IDENTS + EXPRS[:20] + TYPES + STRS
     for t in TARGETS:
         bare = pool_bare if n is None else rng.sample(pool_bare, n)
+        if n is not None and t in ("syn::Path", "syn::Ident", "syn::Expr", "Callable", "syn::ExprPath"):
+            bare = list(dict.fromkeys(bare + PATHS + ["<T>::x", "<T as a::Tr>::y::z"]))      # path-shaped targets see every path shape
         for e in bare:
             cases.append({"target": t, "src": "x = " + e, "entry": "meta"})
             if rng.random() < (0.6 if n is None else 0.35):
